@@ -315,6 +315,13 @@ theorem moves_supply_lt_W {F : Prop} {S Q : Nat → Prop} {w w' : World} (h : C0
     · omega
     · exact hb
   | incAllow _ h => rw [supply_tokIncAllow h]; exact fun h => h
+  | @burnFrom w w' u sp owner amt _ _ h =>
+    intro hb
+    rw [supply_tokBurnFrom h]
+    split
+    · omega
+    · exact hb
+  | decAllow _ h => rw [supply_tokDecAllow h]; exact fun h => h
   | quiet _ hq => rw [(hq hF).2.1 t]; exact fun h => h
 
 /-- every operation keeps every cw20 supply below 2^128 (no assumption on the operation) -/
@@ -454,6 +461,8 @@ theorem moves_nativeBound {F : Prop} {S Q : Nat → Prop} {w w' : World} (h : C0
   | mint _ _ h => exact nativeBound_of_bank (tokMint_same h).2
   | burn _ _ h => exact nativeBound_of_bank (tokBurn_same h).2
   | incAllow _ h => exact nativeBound_of_bank (tokIncAllow_same h).2
+  | burnFrom _ _ h => exact nativeBound_of_bank (tokBurnFrom_same h).2
+  | decAllow _ h => exact nativeBound_of_bank (tokDecAllow_same h).2
   | quiet hb _ => exact nativeBound_of_bank hb
 
 /-- every operation preserves the bound on the circulation of every denom (no assumption on the operation) -/
